@@ -140,6 +140,7 @@ func ProfileByName(name string) *Profile {
 		p.MemoPct = 0
 		p.Tmpls = tmplsWhere(func(t Tmpl) bool { return !t.BL }) // table vs general procedure is C15's business
 	case "c07": // left-recursion detection: reference graphs with nullable prefixes and predicates
+		p.TwoLR = 8
 		p.MaxRules = 5
 		p.MaxDepth = 3
 		p.Blocks = false
